@@ -304,12 +304,13 @@ Definition stv_tie_at (cfg : stv_cfg) (t : Q) (p0 : profile) (rk : ranking) (d :
 Theorem c10_alaska_stv_rounds_proof : forall m1 m2 cfg (p : profile) (s s' : mstate) out,
   s_transfer cfg <> TRandom -> wf_stv0 p ->
   run_alaska m1 m2 cfg p s = inl (out, s') ->
-  exists s0 s1 rest (p1 : profile) t,
+  exists s0 s1 rest (p1 : profile) t inner (sa sb : mstate),
     out = s0 :: s1 :: rest /\
     remove_cand_prof (flat (eliminated s1)) true false p = inl p1 /\
     first_place_votes p1 = inl (escores s1) /\
     Permutation (cands p1) (flat (remaining s1)) /\
     stv_init (with_m cfg m2) p1 = inl t /\
+    run_stv (with_m cfg m2) p1 sa = inl (inner, sb) /\ rest = map bump (tl inner) /\
     forall l1 prev st l2 g tt, s1 :: rest = l1 ++ prev :: st :: l2 -> In (g, tt) (tiebreaks st) ->
       stv_tie_at cfg t p1
         (match l1 with [] => score_to_ranking (escores s1) true | _ :: _ => remaining prev end)
@@ -325,13 +326,15 @@ Proof.
   assert (Hk2 : s_transfer (with_m cfg m2) <> TRandom) by exact Hk.
   destruct (c10_stv_closed_proof cand ceqb ceqb_spec _ _ _ _ _ Hk2 Hwf1 Hrun) as [t' [Ht' Hall]].
   rewrite Ht in Ht'. inversion Ht'; subst t'. clear Ht'.
+  pose proof Hrun as Hrun0.
   apply run_stv_inv in Hrun. destruct Hrun as [t' [q0 [newer [_ [Hq0 [Hsts _]]]]]].
   unfold STV.initial_state in Hq0. rewrite Hd1 in Hq0. cbn [rbind] in Hq0. unfold ok in Hq0.
   inversion Hq0 as [Hq0']. clear Hq0.
   subst sts. cbn [tl] in Hout.
-  exists s0, s1, (map bump newer), p1, t.
+  exists s0, s1, (map bump newer), p1, t, (q0 :: newer), sa, sb.
   split; [exact Hout|]. split; [rewrite Helim1; exact Hnp|]. split; [exact Hd1|].
-  split; [rewrite Hrem1; exact Hperm|]. split; [exact Ht|].
+  split; [rewrite Hrem1; exact Hperm|]. split; [exact Ht|]. split; [exact Hrun0|].
+  split; [reflexivity|].
   intros l1 prev st l2 g tt Heq Hin. destruct l1 as [|a l1].
   - cbn [app] in Heq. inversion Heq as [[Hprev Hmap]]. subst prev.
     destruct newer as [|st0 newer']; [discriminate|]. cbn [map] in Hmap.
@@ -470,7 +473,7 @@ Proof.
   remember (score_to_ranking (filter (fun q => memb (fst q) g) d) true) as r eqn:Er. clear Er.
   assert (Hr : exists sg, r = [sg]).
   { destruct r as [|g1 [|g2 rest]].
-    - exfalso. apply Hgne. apply Permutation_nil. apply Permutation_sym. exact G1.
+    - exfalso. apply Hgne. apply Permutation_nil. exact G1.
     - exists g1. reflexivity.
     - exfalso.
       assert (H1 : g1 <> []) by (apply G2; left; reflexivity).
@@ -616,13 +619,13 @@ Theorem c10_toptwo_round2_scored_proof :
 Proof.
   intros kind p p1 s s' s0 s1 s2 g t d Hnd H Hin Hp1 Hkind.
   destruct (c10_toptwo_round2_proof _ _ _ _ _ _ _ _ _ Hnd H Hin)
-    as [p1' [kind0 [sa [sb [w [x [Htb [_ [Hp1' [Hd1 [_ [_ [Hlg [Hndg [Hgp [_ [Ht [Htl [Hpl _]]]]]]]]]]]]]]]]]].
+    as [p1' [kind0 [sa [sb [w [x [Htb [_ [Hp1' [Hd1 [_ [_ [Hlg [Hndg [Hgp [_ [Ht [Htl [Hpl _]]]]]]]]]]]]]]]]]]].
   rewrite Hp1 in Hp1'. inversion Hp1'; subst p1'. inversion Htb; subst kind0.
   assert (Hndp1 : NoDup (cands p1)) by (eapply Permutation_NoDup; eassumption).
   assert (Hgne : g <> []) by (intros E; rewrite E in Hlg; discriminate).
   assert (Hsub : incl g (cands p1)) by (intros c Hc; eapply Permutation_in; eassumption).
   exists sa, sb, w, x. split; [exact Ht|]. split; [exact Htl|]. split; [exact Hpl|].
-  eapply scored_reading_of; try eassumption. subst t. reflexivity.
+  eapply scored_reading_of; eassumption.
 Qed.
 
 (* TopTwo round 2 with 'first_place' or 'random': one recorded draw of the two finalists *)
@@ -654,6 +657,81 @@ Proof.
       as [l [H2 [H3 [H4 [H5 H6]]]]].
     exists l, g. split; [exact Hp1|]. split; [exact Ht|]. split; [apply Permutation_refl|].
     repeat split; assumption.
+Qed.
+
+(* ------------------------------------------------------------------ *)
+(** * every order-dependent decision of a stage is recorded *)
+
+Lemma one_shot_recorded : forall k m tb (p : profile) (s s' : mstate) q0 q1 pre g post,
+  run_one_shot cand ceqb k m tb p s = inl ([q0; q1], s') ->
+  remaining q0 = pre ++ g :: post ->
+  (Z.of_nat (length (flat pre)) < m < Z.of_nat (length (flat pre) + length g))%Z ->
+  exists t, tiebreaks q1 = [(g, t)].
+Proof.
+  intros k m tb p s s' q0 q1 pre g post H Hr Hm.
+  apply run_one_shot_inv in H. destruct H as [q0' [np [q1' [_ [Hstep Heq]]]]].
+  inversion Heq; subst q0' q1'. clear Heq.
+  apply one_shot_step_inv in Hstep. destruct Hstep as [el [rem [t0 [d [He [_ [_ Hq1]]]]]]].
+  subst q1. cbn [tiebreaks]. rewrite Hr in He. destruct tb as [kind|].
+  - rewrite (elect_top_m_straddle_some cand ceqb) in He by lia.
+    destruct (tiebreak_set g (Some p) kind s) as [[t sx]|e]; [|discriminate].
+    cbv zeta in He. inversion He; subst. exists t. reflexivity.
+  - exfalso.
+    assert (Herr : elect_top_m cand ceqb (pre ++ g :: post) m (Some p) None s = inr EValue).
+    { apply (elect_top_m_none_error_iff cand ceqb). right. right. exists pre, g, post.
+      split; [reflexivity|]. split; lia. }
+    rewrite Herr in He. discriminate.
+Qed.
+
+Lemma stage_recorded : forall m tb (p : profile) (s sa : mstate) p1 s0 s1 pre g post,
+  round0 SKFpv p = inl s0 ->
+  plurality_stage m tb p s0 s = inl ((p1, s1), sa) ->
+  remaining s0 = pre ++ g :: post ->
+  (Z.of_nat (length (flat pre)) < m < Z.of_nat (length (flat pre) + length g))%Z ->
+  exists t, tiebreaks s1 = [(g, t)].
+Proof.
+  intros m tb p s sa p1 s0 s1 pre g post H0 Hst Hr Hm.
+  apply plurality_stage_inv in Hst. destruct Hst as [q0 [q1 [d1 [Hrun [_ [_ Hs1]]]]]].
+  apply run_plurality_inv in Hrun. destruct Hrun as [_ Hrun].
+  pose proof Hrun as Hrun'. apply run_one_shot_inv in Hrun'.
+  destruct Hrun' as [q0' [np [q1' [H0' [_ Heq]]]]]. inversion Heq; subst q0' q1'. clear Heq.
+  rewrite H0 in H0'. inversion H0'; subst q0. subst s1. cbn [tiebreaks].
+  eapply one_shot_recorded; eassumption.
+Qed.
+
+Theorem c10_toptwo_recorded_proof : forall tb (p : profile) (s s' : mstate) s0 s1 s2,
+  run_toptwo tb p s = inl ([s0; s1; s2], s') ->
+  (forall pre g post, remaining s0 = pre ++ g :: post ->
+     (length (flat pre) < 2 < length (flat pre) + length g)%nat ->
+     exists t, tiebreaks s1 = [(g, t)]) /\
+  (forall pre g post, score_to_ranking (escores s1) true = pre ++ g :: post ->
+     (length (flat pre) < 1 < length (flat pre) + length g)%nat ->
+     exists t, tiebreaks s2 = [(g, t)]).
+Proof.
+  intros tb p s s' s0 s1 s2 H. apply run_toptwo_inv in H.
+  destruct H as [s0' [p1 [s1' [sa [q0 [q1 [sb [x [_ [H0 [Hst [Hrun [_ Heq]]]]]]]]]]]]].
+  inversion Heq; subst s0' s1' s2. clear Heq. split.
+  - intros pre g post Hr Hm. eapply stage_recorded; try eassumption. lia.
+  - intros pre g post Hr Hm. unfold C10_quiet.renumber. cbn [tiebreaks].
+    apply plurality_stage_inv in Hst. destruct Hst as [r0 [r1 [d1 [_ [_ [Hd1 Hs1]]]]]].
+    apply run_plurality_inv in Hrun. destruct Hrun as [_ Hrun].
+    pose proof Hrun as Hrun'. apply run_one_shot_inv in Hrun'.
+    destruct Hrun' as [q0' [np [q1' [Hq0 [_ Heq]]]]]. inversion Heq; subst q0' q1'. clear Heq.
+    apply round0_inv in Hq0. destruct Hq0 as [d [Hd Hq0]]. cbn [Rules.score_fn] in Hd.
+    rewrite Hd1 in Hd. inversion Hd; subst d. clear Hd.
+    assert (Hes : escores s1 = d1) by (rewrite Hs1; reflexivity). rewrite Hes in Hr.
+    eapply (one_shot_recorded _ _ _ _ _ _ _ _ pre g post Hrun); [rewrite Hq0; exact Hr|lia].
+Qed.
+
+Theorem c10_alaska_recorded_proof : forall m1 m2 cfg (p : profile) (s s' : mstate) s0 s1 rest,
+  run_alaska m1 m2 cfg p s = inl (s0 :: s1 :: rest, s') ->
+  forall pre g post, remaining s0 = pre ++ g :: post ->
+    (Z.of_nat (length (flat pre)) < m1 < Z.of_nat (length (flat pre) + length g))%Z ->
+    exists t, tiebreaks s1 = [(g, t)].
+Proof.
+  intros m1 m2 cfg p s s' s0 s1 rest H pre g post Hr Hm. apply run_alaska_inv in H.
+  destruct H as [s0' [p1 [s1' [sa [t0 [sts [sb [pf [_ [_ [H0 [Hst [_ [_ [_ Heq]]]]]]]]]]]]]]].
+  inversion Heq; subst s0' s1'. eapply stage_recorded; eassumption.
 Qed.
 
 End Composite10.
